@@ -49,6 +49,11 @@ pub struct C14Case {
     /// a gap-free prefix and must announce that it stopped). No second handler in such cases.
     #[serde(default)]
     pub big_burst: u16,
+    /// the recorder stays silent for frames of topic `note` (it counts them in its environment
+    /// and returns nothing): environment set by an invocation that reports nothing must still
+    /// be there for the next one
+    #[serde(default)]
+    pub quiet_notes: bool,
 }
 
 const TOPICS: &[&str] = &["trig", "note", "h.out", "h.registered", "x.register", "g.out"];
@@ -68,8 +73,9 @@ pub fn strategy() -> BoxedStrategy<C14Case> {
         proptest::option::weighted(0.15, 15u8..40),
         any::<bool>(),
         prop_oneof![24 => Just(0u16), 2 => 130u16..320, 1 => 500u16..650],
+        proptest::bool::weighted(0.35),
     )
-        .prop_map(|(ctx, resume, pre, earlier_lifecycle, other_handler, bursts, busy_ms, pulse_ms, explicit_append, big_burst)| C14Case {
+        .prop_map(|(ctx, resume, pre, earlier_lifecycle, other_handler, bursts, busy_ms, pulse_ms, explicit_append, big_burst, quiet_notes)| C14Case {
             ctx,
             resume,
             pre,
@@ -80,11 +86,12 @@ pub fn strategy() -> BoxedStrategy<C14Case> {
             pulse_ms,
             explicit_append,
             big_burst,
+            quiet_notes,
         })
         .boxed()
 }
 
-fn recorder_script(resume: &str, busy_ms: u8, pulse: Option<u8>, explicit: bool) -> String {
+fn recorder_script(resume: &str, busy_ms: u8, pulse: Option<u8>, explicit: bool, quiet: bool) -> String {
     format!(
         r#"$env.n = 0
 def --env bump [] {{
@@ -95,6 +102,7 @@ def --env bump [] {{
   resume_from: {resume}
   {pulse}
   run: {{|frame|
+    {quiet}
     {busy}
     {explicit}
     {{seen: $frame.id, topic: $frame.topic, ctx: $frame.context_id, hash: ($frame.hash? | default "none"), meta: ($frame.meta? | default null), n: (bump)}}
@@ -102,6 +110,7 @@ def --env bump [] {{
 }}
 "#,
         resume = nu_str(resume),
+        quiet = if quiet { "if $frame.topic == \"note\" { bump | ignore; return }" } else { "" },
         pulse = pulse.map(|p| format!("pulse: {p}")).unwrap_or_default(),
         explicit = if explicit { "\"copy\" | .append \"copies\"" } else { "" },
         busy = if busy_ms > 0 {
@@ -152,7 +161,7 @@ fn run_in(case: &C14Case, nu: &mut Nu) -> Result<CaseInfo, Fail> {
 
     // ---- history -------------------------------------------------------------------
     if case.earlier_lifecycle {
-        let v1 = nu.append("h.register", hctx, Some(recorder_script("tail", 0, None, false).as_bytes()), None)?;
+        let v1 = nu.append("h.register", hctx, Some(recorder_script("tail", 0, None, false, false).as_bytes()), None)?;
         wait_for(nu, "the earlier registration of h", |fr| {
             fr.iter().any(|w| w.topic == "h.registered" && meta_of(w, "handler_id").as_deref() == Some(&v1.id))
         })?;
@@ -194,7 +203,7 @@ fn run_in(case: &C14Case, nu: &mut Nu) -> Result<CaseInfo, Fail> {
     };
     let tail = resume_str == "tail";
     let busy_ms = if case.big_burst > 0 { case.busy_ms.max(2) } else { case.busy_ms };
-    let script = recorder_script(&resume_str, busy_ms, case.pulse_ms, case.explicit_append);
+    let script = recorder_script(&resume_str, busy_ms, case.pulse_ms, case.explicit_append, case.quiet_notes);
     let reg = nu.append("h.register", hctx, Some(script.as_bytes()), None)?;
     let after_reg = wait_for(nu, "h.registered", |fr| {
         fr.iter().any(|w| (w.topic == "h.registered" || w.topic == "h.unregistered") && meta_of(w, "handler_id").as_deref() == Some(&reg.id))
@@ -221,7 +230,7 @@ fn run_in(case: &C14Case, nu: &mut Nu) -> Result<CaseInfo, Fail> {
                 .map(|(i, (own, eph))| {
                     (
                         fspec(
-                            "trig",
+                            if case.quiet_notes && i % 3 == 2 { "note" } else { "trig" },
                             if *own { hctx } else { other },
                             // every other trigger carries meta: the closure must be handed the frame as stored
                             if i % 2 == 1 {
@@ -364,6 +373,16 @@ fn run_in(case: &C14Case, nu: &mut Nu) -> Result<CaseInfo, Fail> {
         }
         expected.push(w.id.clone());
     }
+    // frames the recorder is invoked for without reporting them (it only counts them)
+    let note_ids: std::collections::BTreeSet<String> = if case.quiet_notes {
+        all.iter().filter(|w| w.topic == "note" && w.ctx128() == hctx).map(|w| w.id.clone()).collect()
+    } else {
+        Default::default()
+    };
+    let expected_full = expected.clone();
+    let n_hist = expected_full[..n_hist].iter().filter(|id| !note_ids.contains(*id)).count();
+    let mut expected: Vec<String> = expected_full.iter().filter(|id| !note_ids.contains(*id)).cloned().collect();
+    let mut prev_n = 0i64;
     // what the recorder reported, in id order of its outputs
     let outs: Vec<&WFrame> = all.iter().filter(|w| w.topic == "h.out" && own(w)).collect();
     let mut seen: Vec<String> = Vec::new();
@@ -374,13 +393,22 @@ fn run_in(case: &C14Case, nu: &mut Nu) -> Result<CaseInfo, Fail> {
         let c = nu.content(&h)?;
         let v: serde_json::Value = serde_json::from_slice(&c).map_err(|e| bad(format!("h.out content is not JSON: {e}")))?;
         let n = v["n"].as_i64().unwrap_or(-1);
-        if n != (i as i64) + 1 {
+        let s = v["seen"].as_str().unwrap_or("").to_string();
+        // the counter counts every invocation, the silent ones included: output #i of a real
+        // frame reads i plus the number of `note` frames the handler was invoked for before it
+        let want_n = match expected_full.iter().position(|id| *id == s) {
+            Some(p) => Some((i as i64) + 1 + expected_full[..p].iter().filter(|id| note_ids.contains(*id)).count() as i64),
+            None if note_ids.is_empty() => Some((i as i64) + 1),
+            None => None,
+        };
+        if want_n.map(|w| w != n).unwrap_or(n <= prev_n) {
             return Err(bad(format!(
-                "invocation counter kept in the handler's environment reads {n} on its output #{} — invocations overlapped, repeated, or the environment was not carried over",
-                i + 1
+                "invocation counter kept in the handler's environment reads {n} on its output #{} (expected {want_n:?}; {} silent invocations in this case) — invocations overlapped, repeated, or the environment was not carried over",
+                i + 1,
+                note_ids.len()
             )));
         }
-        let s = v["seen"].as_str().unwrap_or("").to_string();
+        prev_n = n;
         // the closure is handed the frame as it is stored (synthetic markers are not stored)
         if let Some(fr) = all.iter().find(|w| w.id == s) {
             let want_hash = fr.hash.clone().unwrap_or("none".into());
@@ -464,6 +492,7 @@ fn run_in(case: &C14Case, nu: &mut Nu) -> Result<CaseInfo, Fail> {
         (case.other_handler && case.big_burst == 0, "second-handler-in-context"),
         (case.big_burst > 0, "burst-of-hundreds-while-busy"),
         (lagged_out, "handler-lagged-out-and-announced-it"),
+        (!note_ids.is_empty(), "silent-invocations-keep-environment"),
         (case.busy_ms > 0, "busy-handler"),
         (case.pulse_ms.is_some(), "pulse"),
         (tail, "resume-tail"),
